@@ -6,6 +6,8 @@ PROPS = ['C07', 'C09', 'C10']
 INSTR = {"files": {
     "queue.go": {"funcs": ["queue.markWorking"]},
     "session.go": {"funcs": ["Session.wakeUpPeer"]},
+    # observation hook only: the harness overwrites the payload of every buffer at the moment it is recycled
+    "buffer_manager.go": {"entry": ["bufferList.push"]},
 }}
 HARNESS = ['zz_vs_sched.go', 'zz_freelist_test.go', 'zz_pair_test.go', 'zz_session_test.go']
 SLUGS = ['close-via-queue-after-fallback', 'socket-before-poll', 'server-recreates-closed-stream']
